@@ -332,9 +332,9 @@ def sweep(da, d, rng: random.Random, tier_: str, out: Outcome) -> list[dict[str,
             sessions[role] = Session(da, role)
         return sessions[role]
 
-    def do(role: str, rule, method: str, url: str, variant: dict[str, Any]) -> None:
+    def do(role: str, rule, method: str, url: str, variant: dict[str, Any], sess=None, history: str = '') -> None:
         nonlocal tid, sessions
-        s = get_session(role)
+        s = sess or get_session(role)
         before = state['last'] if state['last'] is not None else StateDigest(da)
         kw: dict[str, Any] = {}
         u = url
@@ -386,7 +386,7 @@ def sweep(da, d, rng: random.Random, tier_: str, out: Outcome) -> list[dict[str,
                 selfonly = 1
         tid += 1
         lines.append({'tid': tid, 'ev': 'request', 'route': rule.endpoint, 'method': method, 'role': role, 'url': u,
-                      'variant': variant, 'status': status, 'changed': changed, 'selfonly': selfonly, 'diff': df})
+                      'variant': variant, 'status': status, 'changed': changed, 'selfonly': selfonly, 'diff': df, 'history': history})
         if changed:
             effective[(rule.endpoint, method)] = True
             snap.restore()
@@ -433,6 +433,65 @@ def sweep(da, d, rng: random.Random, tier_: str, out: Outcome) -> list[dict[str,
                         if effective.get((rule.endpoint, method)) and role in ('media', 'admin') and rule.endpoint in known_names:
                             continue
                         do(role, rule, method, url, v)
+    # ---- an account that takes the place of a deleted one -------------------------------------------------------------------
+    # history: an admin creates a media account, that account uses the pages and APIs of its role, the admin deletes it and
+    # creates a plain `user` account (the database hands the freed primary key to the new row): the new account is a lesser role
+    # like any other, whatever its predecessor was allowed to do
+    from harness import app as _app
+    pw = 'tmp-M3dia!pw'
+    admin = Session(da, 'admin')
+
+    def make(name: str, **groups) -> int:
+        r = admin.request('PUT', '/api/users', json={'username': name, 'email': f'{name}@dashlive.unit.test', 'password': pw,
+                                                      'confirmPassword': pw, 'mustChange': False, **groups})
+        js = r.get_json(silent=True) or {}
+        if not js.get('success'):
+            raise MachineryFailure(f'could not create account {name}: {r.status_code} {js}')
+        _app.USERS[name] = (name, f'{name}@dashlive.unit.test', pw)
+        return js['user']['pk']
+    try:
+        pk1 = make('tempmedia', mediaGroup=True, userGroup=True)
+        tm = Session(da, 'tempmedia')
+        nget = 0
+        for rule in rules:
+            if rule.endpoint == 'static' or 'GET' not in rule.methods or rule.endpoint in ('logout',):
+                continue
+            for url in fill_rule(rule, ident, tm.user_pk, ident['users']['user'])[:1]:
+                tm.request('GET', url)
+                nget += 1
+        r = admin.request('DELETE', f'/api/users/{pk1}')
+        if r.status_code not in (200, 204):
+            raise MachineryFailure(f'could not delete account {pk1}: {r.status_code}')
+        pk2 = make('tempuser', userGroup=True)
+        out.coverage['recycled_account'] = {'first_pk': pk1, 'second_pk': pk2, 'pk_reused': pk1 == pk2, 'requests_by_first': nget}
+        tu = Session(da, 'tempuser')
+        state['last'] = None
+        polluted = False
+        for rule in rules:
+            if rule.endpoint == 'static' or polluted:
+                continue
+            for method in ('POST', 'PUT', 'DELETE'):
+                if polluted:
+                    break
+                for url in fill_rule(rule, ident, tu.user_pk, ident['users']['media'])[:2]:
+                    for v in (variants_mut[:4] if tier_ == 'quick' else variants_mut):
+                        nbefore = len(lines)
+                        do('user', rule, method, url, v, sess=tu, history='recycled-pk')
+                        if lines[-1]['changed'] and not lines[-1]['selfonly']:
+                            polluted = True      # the snapshot restore has removed the account: the stage ends here
+                            break
+                        if lines[-1]['changed']:
+                            polluted = True
+                            break
+                    if polluted:
+                        break
+    finally:
+        _app.USERS.pop('tempmedia', None)
+        _app.USERS.pop('tempuser', None)
+        snap.restore()
+        for x in sessions.values():
+            x.rebind()
+        state['last'] = None
     # which mutating routes were shown to be effective (state changed for an authorised role)?
     out.coverage['sweep_effective_route_methods'] = sorted(f'{r} {m}' for (r, m) in effective)
     return lines
